@@ -104,9 +104,7 @@ def run(pid, verif, repo, work, only=None):
                                 "detail": "no new report" if ok2 else "benign rewrite was reported: %s" % sorted(fails)[:4], "wall_s": round(time.time() - t0, 1)})
         finally:
             shutil.rmtree(scratch, ignore_errors=True)
-    # scratch fact directories are throw-away
-    for d in glob.glob(os.path.join(stwork, "facts-*")):
-        shutil.rmtree(d, ignore_errors=True)
+    # scratch fact directories are kept (bounded by ensure_facts): the thorough runs of the other properties reuse them
     return {"patches": len(results), "detected": sum(1 for r in results if r["status"] == "detected"),
             "silent": sum(1 for r in results if r["status"] == "silent"), "skipped": sum(1 for r in results if r["status"] == "skipped"),
             "results": results}
